@@ -36,8 +36,9 @@
 (*    reject policy runs), Stop.                                           *)
 (*                                                                         *)
 (* The property is the invariants AcceptedIsValid, DefaultsAsDocumented,   *)
-(* NoCrash, DocumentedIsAccepted and OmittedIsEmpty, and the action        *)
-(* properties at the end.                                                  *)
+(* NoCrash, DocumentedIsAccepted and OmittedIsEmpty; MigrationPreserves,   *)
+(* LoaderAgrees and CrashIsUndocumented are lemmas about the model itself; *)
+(* the action properties are at the end.                                   *)
 (***************************************************************************)
 EXTENDS Integers, Sequences, FiniteSets, TLC
 
